@@ -261,6 +261,13 @@ func CheckClaims(ssn *framework.Session, st map[string]int) []string {
 		byKey[k] = c
 	}
 	sort.Strings(keys)
+	viewOwner := map[string]string{} // device -> claim that holds it in the scheduler's view (pre-pass)
+	for _, k := range keys {
+		ds, _, _ := effectiveClaim(mgr, byKey[k], users[k])
+		for _, d := range ds {
+			viewOwner[d] = k
+		}
+	}
 	for _, k := range keys {
 		c := byKey[k]
 		st["claim_comparisons"]++
@@ -307,8 +314,17 @@ func CheckClaims(ssn *framework.Session, st map[string]int) []string {
 						if r.Resource == "pods" && string(r.UID) == string(t.UID) {
 							st["claim_api_allocation_comparisons"]++
 							if want := devIDs(ac.Status.Allocation); strings.Join(want, ",") != strings.Join(devs, ",") {
-								out = append(out, fmt.Sprintf("claim %s devices-differ-from-api:%v:%s: pod %s is %v on node %s and uses %v according to the API object, the scheduler's view says %v",
-									k, t.Status, shared, t.Name, t.Status, t.NodeName, want, devs))
+								// where is the device the pod really uses in the scheduler's view: given to another claim
+								// (the pod was evicted in a scenario, its device went to the preemptor, the pod was
+								// re-placed on its node on another free device) or held by nobody (the view lost it)
+								where := "api-device-free-in-view"
+								for _, d := range want {
+									if o, ok := viewOwner[d]; ok && o != k {
+										where = "api-device-given-to-other-claim"
+									}
+								}
+								out = append(out, fmt.Sprintf("claim %s devices-differ-from-api:%s:%v:%s: pod %s is %v on node %s and uses %v according to the API object, the scheduler's view says %v",
+									k, where, t.Status, shared, t.Name, t.Status, t.NodeName, want, devs))
 							}
 						}
 					}
